@@ -213,7 +213,7 @@ def run(tier: str) -> int:
 
 SNIPPETS = [
     ("para", "Plain paragraph text here."), ("escapes", "1\\. not a list"), ("escapes2", "\\# not heading and 2\\) paren"), ("heading", "## Heading two"),
-    ("setext", "Setext title\n==="), ("bullet", "- item a\n- item b"), ("bullet_esc", "- 2\\. text in item\n- b"), ("ordered", "3. three\n4. four"),
+    ("setext", "Setext title\n==="), ("setext2", "Setext title\nsecond line of it\n---"), ("bullet", "- item a\n- item b"), ("bullet_esc", "- 2\\. text in item\n- b"), ("ordered", "3. three\n4. four"),
     ("quote", "> quoted line"), ("code", "```\ncode\n```"), ("table", "| A | B |\n|---|---|\n| x | y |"), ("hr", "* * *"),
     ("def", "[ref]: http://example.com/x \"T\""), ("footnote", "[^n]: Note text."), ("html", "<div>inline html</div> text"),
     ("hardbreak", "line one\\\nline two"), ("task", "- [ ] todo\n- [x] done"), ("alert", "> [!NOTE]\n> Body."), ("link", "See [ref] and [t](http://u.v \"ti\")."),
@@ -422,6 +422,11 @@ def run_family_r(chk: Check, tier: str) -> None:
         if dm or di:
             m = metas[id_]
             bad[m["doc"]] = bad.get(m["doc"], 0) + 1
+            from harness import corpus as _corpus
+            if "D56" in chk.open_findings and _corpus.d56_trigger(m["src"]) and not any(s.startswith("fndef:1(") for s in t["tm_in"]) \
+                    and any(s.startswith("fndef:1(") for s in t["tm_out"]):
+                chk.known_finding("D56", m)
+                continue
             a, b = (t["tm_in"], t["tm_out"]) if dm else (t["ti_in"], t["ti_out"])
             d = dm or di
             chk.violation("SameDocument(marko)" if dm else "SameDocument(markdown-it)",
